@@ -18,9 +18,7 @@ func init() {
 }
 
 // d3Exceptions: blocking channel operations on API paths that are safe for a stated reason (checked elsewhere).
-var d3Exceptions = map[string]string{
-	"pkg/gcc.(*delayController).updateDelayEstimate": "the consumers of both pipes are kept alive by the closeLock protocol: WriteRTCP sends only with closeLock read-held and not closed, Close closes the pipes with closeLock write-held (rules H3, C5)",
-}
+var d3Exceptions = map[string]string{}
 
 // chanField returns the struct field a channel value is loaded from ("" if none).
 func chanField(p *Prog, v ssa.Value) string {
@@ -291,21 +289,57 @@ func runEngineD(p *Prog, o *obls) {
 	}
 
 	// ---- D1 ----
+	// one obligation per goroutine target (the site is part of the witness, not of the key: moving the go statement
+	// into a helper does not change what is started)
+	type d1res struct {
+		pos  string
+		bad  []string
+		good []string
+	}
+	d1 := map[string]*d1res{}
+	var d1order []string
 	for _, gs := range gos {
-		key := fmt.Sprintf("go %s@%s", calleeLabel(gs.g, gs.callee), funcKey(gs.fn))
+		key := "go " + calleeLabel(gs.g, gs.callee)
+		if lbl := calleeLabel(gs.g, gs.callee); lbl == "literal" || lbl == "<func value>" || strings.HasPrefix(lbl, "<dynamic") {
+			key += "@" + funcKey(gs.fn)
+		}
 		pos := p.instrPos(gs.g)
-		// (a) a WaitGroup.Add that dominates the go statement
+		r := d1[key]
+		if r == nil {
+			r = &d1res{pos: pos}
+			d1[key] = r
+			d1order = append(d1order, key)
+		}
+		site := fmt.Sprintf("[started at %s in %s] ", pos, funcKey(gs.fn))
+		// (a) a WaitGroup.Add that dominates the go statement — in the same function, or at every call of the helper
+		// that contains the go statement
 		var wgField string
-		var add *ssa.Call
-		instrsOf(gs.fn, func(in ssa.Instruction) {
-			if c, ok := in.(*ssa.Call); ok && isCallTo(&c.Call, "(*sync.WaitGroup).Add") && instrDominates(c, gs.g) {
-				if fa, ok := c.Call.Args[0].(*ssa.FieldAddr); ok {
-					wgField, add = fieldKeyAddr(fa), c
+		addDominating := func(at ssa.Instruction) string {
+			f := ""
+			instrsOf(at.Parent(), func(in ssa.Instruction) {
+				if c, ok := in.(*ssa.Call); ok && isCallTo(&c.Call, "(*sync.WaitGroup).Add") && instrDominates(c, at) {
+					if fa, ok := c.Call.Args[0].(*ssa.FieldAddr); ok {
+						f = fieldKeyAddr(fa)
+					}
 				}
+			})
+			return f
+		}
+		wgField = addDominating(gs.g)
+		if wgField == "" {
+			var fields []string
+			if p.allCallersSatisfy(gs.fn, func(s ssa.CallInstruction) bool {
+				if f := addDominating(s); f != "" {
+					fields = append(fields, f)
+					return true
+				}
+				return false
+			}, ipDepth) && len(dedupe(fields)) == 1 {
+				wgField = fields[0]
 			}
-		})
-		if add == nil {
-			o.bad("D1", key, pos, "goroutine is started without a dominating WaitGroup.Add: nothing can wait for it, so Close can return while it still runs (and writes)")
+		}
+		if wgField == "" {
+			r.bad = append(r.bad, site+"goroutine is started without a dominating WaitGroup.Add: nothing can wait for it, so Close can return while it still runs (and writes)")
 			continue
 		}
 		// (b) the goroutine's entry defers Done on the same WaitGroup
@@ -320,7 +354,7 @@ func runEngineD(p *Prog, o *obls) {
 			}
 		}
 		if !done {
-			o.bad("D1", key, pos, fmt.Sprintf("WaitGroup %s is incremented but the goroutine's entry does not `defer Done()` on it: Close waits forever or not at all", wgField))
+			r.bad = append(r.bad, site+fmt.Sprintf("WaitGroup %s is incremented but the goroutine's entry does not `defer Done()` on it: Close waits forever or not at all", wgField))
 			continue
 		}
 		// (c) the owner's Close waits on it on every path
@@ -330,14 +364,22 @@ func runEngineD(p *Prog, o *obls) {
 			closeFn = p.DeclaredMethod(owner, "Close")
 		}
 		if closeFn == nil {
-			o.bad("D1", key, pos, fmt.Sprintf("the type owning %s has no Close method that could wait for the goroutine", wgField))
+			r.bad = append(r.bad, site+fmt.Sprintf("the type owning %s has no Close method that could wait for the goroutine", wgField))
 			continue
 		}
 		if !waitsOnAllPaths(closeFn, wgField) {
-			o.bad("D1", key, pos, fmt.Sprintf("%s does not reach %s.Wait() on every path", funcKey(closeFn), wgField))
+			r.bad = append(r.bad, site+fmt.Sprintf("%s does not reach %s.Wait() on every path", funcKey(closeFn), wgField))
 			continue
 		}
-		o.ok("D1", key, pos, fmt.Sprintf("Add on %s dominates the go statement, the entry defers Done, %s waits on every path", wgField, funcKey(closeFn)))
+		r.good = append(r.good, fmt.Sprintf("Add on %s dominates the go statement, the entry defers Done, %s waits on every path", wgField, funcKey(closeFn)))
+	}
+	for _, key := range d1order {
+		r := d1[key]
+		if len(r.bad) > 0 {
+			o.bad("D1", key, r.pos, strings.Join(r.bad, "; "))
+		} else {
+			o.ok("D1", key, r.pos, strings.Join(dedupe(r.good), "; "))
+		}
 	}
 
 	// ---- D2 ----
@@ -748,6 +790,10 @@ func d3Channel(p *Prog, o *obls, fn *ssa.Function, isLifecycle func(map[string]b
 					o.note("D3", key, p.instrPos(x), "accepted: "+why)
 					return
 				}
+				if l, n := closeLockProtocol(p, x, f); l != "" {
+					o.ok("D3", key, p.instrPos(x), fmt.Sprintf("the send runs with %s read-held and the %d close site(s) of the channel run with it write-held: the channel cannot be closed under the sender, and its consumer is kept until then (closed-flag protocol, rules H3 and C5)", l, n))
+					return
+				}
 				o.bad("D3", key, p.instrPos(x), "blocking send on an internal channel with no alternative (no select case on the close channel, no default): the caller is stranded when the consumer goroutine is not running (before BindRTCPWriter, after Close) or the buffer is full")
 			}
 		case *ssa.UnOp:
@@ -990,4 +1036,50 @@ func reuseOfStored(p *Prog, op containerOp) bool {
 		}
 	})
 	return reuse
+}
+
+// closeLockProtocol: the blocking send runs with some lock held (read or write) and every close() of the same channel
+// field in the universe runs with that lock write-held. Returns the lock and the number of close sites.
+func closeLockProtocol(p *Prog, send *ssa.Send, chanFld string) (string, int) {
+	la := p.Locks()
+	held := la.info[send.Parent()].before[send]
+	if len(held) == 0 {
+		return "", 0
+	}
+	type site struct {
+		fn *ssa.Function
+		in ssa.Instruction
+	}
+	var closes []site
+	for _, f := range p.Funcs {
+		instrsOf(f, func(in ssa.Instruction) {
+			c, ok := in.(*ssa.Call)
+			if !ok || builtinName(&c.Call) != "close" {
+				return
+			}
+			for id := range chanIdents(p, c.Call.Args[0]) {
+				if id == chanFld {
+					closes = append(closes, site{f, in})
+				}
+			}
+		})
+	}
+	if len(closes) == 0 {
+		return "", 0
+	}
+	for _, l := range sortedKeys(held) {
+		if held[l] < 1 {
+			continue
+		}
+		all := true
+		for _, c := range closes {
+			if la.info[c.fn] == nil || la.info[c.fn].before[c.in][l] != 2 {
+				all = false
+			}
+		}
+		if all {
+			return l, len(closes)
+		}
+	}
+	return "", 0
 }
